@@ -324,6 +324,14 @@ func (n *node[T]) checkAmbiguous(pattern string, hasNonString bool) (*node[T], b
 			if node != nil {
 				return node, hasNonString, nil
 			}
+		} else if l := seg.AmbiguousPrefixLen(s0); l > 0 { // c 是被拆分之后的节点，剩余的内容在其子节点中。
+			node, hasNonString, err := c.checkAmbiguous(pattern[l:], true)
+			if err != nil {
+				return nil, false, err
+			}
+			if node != nil {
+				return node, hasNonString, nil
+			}
 		}
 	}
 
